@@ -7,6 +7,7 @@ from __future__ import annotations
 import builtins
 import collections
 import struct
+import sys
 import types as pytypes
 
 import z3
@@ -190,8 +191,24 @@ def call_builtin(I, live, args, kwargs, node=None):
     args = [I.unopt(a) for a in args]
     qn = f"{getattr(live, '__module__', '')}:{getattr(live, '__qualname__', getattr(live, '__name__', repr(live)))}"
     ov = I.overrides.get(qn)
+    if ov is None:
+        ov = I.overrides.get(getattr(live, "__qualname__", None) or getattr(live, "__name__", ""))
     if ov is not None:
-        return ov(I, args, kwargs)
+        r = ov(I, args, kwargs)
+        I.override_log.append((qn, r))
+        return r
+    if live is sys.exit:
+        from .interp import PyExc
+
+        o = I.new_object(SystemExit)
+        o.fields["args"] = STuple(list(args))
+        o.fields["code"] = args[0] if args else NONE
+        raise PyExc(SystemExit, o, "sys.exit", f"line {getattr(node, 'lineno', '?')}")
+    if live is sys.exc_info:
+        e = I._inflight or I._active_exc
+        if e is None:
+            return STuple([NONE, NONE, NONE])
+        return STuple([SFunc(e.cls), e.obj or NONE, SOpaque("traceback")])
     if live is len:
         return length(I, args[0], node)
     if live is isinstance:
@@ -358,6 +375,12 @@ def call_builtin(I, live, args, kwargs, node=None):
         raise Unsupported("hasattr")
     if live is getattr:
         nm = concrete_str(args[1].t)
+        if nm is None and isinstance(args[0], SFunc) and isinstance(args[0].live, type) and len(args) == 3:
+            # attribute lookup on a class by a computed name: one case per attribute the class has
+            for attr in sorted(set(dir(args[0].live))):
+                if c.branch(args[1].t == z3.StringVal(attr)):
+                    return I.getattr(args[0], attr, node)
+            return args[2]
         if nm is None:
             raise Unsupported("getattr with symbolic name")
         if len(args) == 3:
